@@ -149,10 +149,21 @@ def run(tier, work):
     conf, _ = work.mudlib()
     scen = [(str(i), script_of(h)) for i, h in enumerate(allh)]
     t1 = time.time()
-    exs = vlib.run_vdrv(exe, conf, scen, work, tag="run")
-    print("RUN %d scenarios in %.1fs" % (len(exs), time.time() - t1))
+    # every other scenario runs with a two-bucket object name table: all names collide, so the hash chains are as long
+    # as the population ("small and large object populations" relative to the table)
+    conf2, _ = work.mudlib(name="mudlib2", conf_extra="ObjectHashSize 2")
+    confs = [conf, conf2]
+    exs = []
+    for par in (0, 1):
+        exs += vlib.run_vdrv(exe, confs[par], [sc for j, sc in enumerate(scen) if j % 2 == par], work, tag="run%d" % par)
+    exs.sort(key=lambda ex: int(ex["id"]))
+    print("RUN %d scenarios in %.1fs (half of them with ObjectHashSize 2)" % (len(exs), time.time() - t1))
     ncrash = 0
-    for ex, sigs, raw in vlib.confirmed_crashes(exe, conf, scen, exs, work):
+    crashes = []
+    for par in (0, 1):
+        crashes += list(vlib.confirmed_crashes(exe, confs[par], [sc for j, sc in enumerate(scen) if j % 2 == par],
+                                               [ex for ex in exs if int(ex["id"]) % 2 == par], work))
+    for ex, sigs, raw in crashes:
         for sig in sigs:
             ncrash += 1
             verdict.add(sig, [json.dumps(allh[int(ex["id"])])] + scen[int(ex["id"])][1], "driver failure: " + json.dumps(allh[int(ex["id"])])[:300], raw=raw)
